@@ -12,7 +12,7 @@
 (* (lengths; 0 and 1, 2 are at the same time IEIs the table does not know). *)
 (***************************************************************************)
 EXTENDS Integers, Sequences, TLC
-CONSTANTS MaxLen, Policy         \* Policy: "asCoded" = the loop as the code performs it; "stopOnUnknown" = leave the loop on an unknown IEI
+CONSTANTS MaxLen, Policy         \* Policy "stopOnUnknown" = the loop as the code performs it (since fix e.g. known_findings C12); "noAdvanceOnUnknown" = the historic defect, kept as a lead generator
 VARIABLES input, index, pc, steps
 vars == <<input, index, pc, steps>>
 Alphabet == {41, 128, 89, 34, 121, 0, 1, 2}
